@@ -45,6 +45,7 @@ PROPS = {
         'assumptions': [],
     },
     'C04': {
+        'lean_modules': ['C04', 'C11t'],
         'engines': [('inflow', 300, 3000), ('serve', 150, 1500), ('retry', 100, 600), ('hcall', 1, 1)],
         'rule': 'sequences of length 0-40 over PUBLISH qos0/1/2 (ids 1,2,3,65535, dup bits) and PUBREL (known and unknown ids), '
                 'with and without handler, fed to a connected BaseClient; all sequences up to length 5 over a 9-symbol alphabet in the '
@@ -105,7 +106,7 @@ PROPS = {
         'thorough_seeds': 2,
     },
     'C17': {
-        'lean_modules': ['C17'],
+        'lean_modules': ['C17', 'C11t'],
         'engines': [('retry', 300, 2500), ('inflow', 150, 1000), ('hcall', 1, 1)],
         'rule': 'scripts of environment events (app requests before Connect / while connected / during an outage, dial results, CONNACK accepted with or without session / refused / never, peer close, inbound messages, Handle) with a per-packet fault plan (write failure, lost request, lost acknowledgement, silent) and a friendly tail; hand-written witnesses of the repaired defects first; all single- and double-fault plans over short histories in the thorough tier; non-trivial = the script reached at least one connection',
         'assumptions': ['one task of the RetryClient is one atomic model step (single task goroutine, one request outstanding at a time)',
@@ -151,6 +152,7 @@ PROPS = {
                         'promptness ("returns promptly") is measured by the correspondence run (5 s budget per predicted return), not proved'],
     },
     'C11': {
+        'lean_modules': ['C11', 'C11t'],
         'engines': [('bc', 400, 4000), ('rhandle', 1, 1), ('servewf', 1, 1), ('hcall', 1, 1)],
         'rule': 'scripts over the base client LTS: API calls (Connect, Publish QoS 1/2, Subscribe, Unsubscribe, Ping, Disconnect) started at scripted points, acknowledgements in a scripted order (own, foreign, wrong-kind, unsolicited, SUBACK with right / wrong count), cancellation of any call, peer close, local Close, malformed packet, write refusal; the thorough tier enumerates every request kind x every step of its exchange x every cause, alone and with 1-4 other blocked calls; non-trivial = at least one call was made',
         'assumptions': ['registration of a waiter and the write of its request are one atomic step (no acknowledgement can precede the request)',
